@@ -66,6 +66,12 @@ type mSpec struct {
 	Source string   `json:"source"`
 	Bounds []string `json:"bounds,omitempty"`
 	Ls     []lsSpec `json:"ls"`
+	// Reload: a key-less metric built the way a program reload builds it - the
+	// datum is preallocated at construction (codegen: scalar counters start at 0
+	// at time 0, scalar histograms get their datum), the metric is added, updated,
+	// and then the SAME declaration (again with its preallocated datum) is added
+	// a second time; Store.Add hands the old datum over to the new metric.
+	Reload bool `json:"reload,omitempty"`
 }
 type storeSpec struct {
 	Kind     string  `json:"kind"`
@@ -111,23 +117,33 @@ func build(sp storeSpec) (*metrics.Store, []builtMetric) {
 	st := metrics.NewStore()
 	var out []builtMetric
 	for _, ms := range sp.Metrics {
-		m := metrics.NewMetric(vlib.UnQ(ms.Name), vlib.UnQ(ms.Prog), kindOf[ms.Kind], typeOf[ms.Type], vlib.UnQs(ms.Keys)...)
-		m.SetSource(vlib.UnQ(ms.Source))
-		m.Hidden, m.Limit = ms.Hidden, ms.Limit
-		if ms.Type == "buckets" {
-			bs := make([]float64, len(ms.Bounds))
-			for i, b := range ms.Bounds {
-				bs[i] = unhx(b)
+		newMetric := func(prealloc bool) *metrics.Metric {
+			m := metrics.NewMetric(vlib.UnQ(ms.Name), vlib.UnQ(ms.Prog), kindOf[ms.Kind], typeOf[ms.Type], vlib.UnQs(ms.Keys)...)
+			m.SetSource(vlib.UnQ(ms.Source))
+			m.Hidden, m.Limit = ms.Hidden, ms.Limit
+			if ms.Type == "buckets" {
+				bs := make([]float64, len(ms.Bounds))
+				for i, b := range ms.Bounds {
+					bs[i] = unhx(b)
+				}
+				m.Buckets = rangesOf(bs)
 			}
-			m.Buckets = rangesOf(bs)
+			if prealloc {
+				// what codegen does for a scalar counter / histogram
+				d, err := m.GetDatum()
+				if err != nil {
+					panic(err)
+				}
+				switch ms.Type {
+				case "int":
+					datum.SetInt(d, 0, time.Unix(0, 0))
+				case "float":
+					datum.SetFloat(d, 0, time.Unix(0, 0))
+				}
+			}
+			return m
 		}
-		bm := builtMetric{spec: ms, m: m}
-		for _, l := range ms.Ls {
-			vals := vlib.UnQs(l.Vals)
-			d, err := m.GetDatum(vals...)
-			if err != nil {
-				panic(err)
-			}
+		set := func(d datum.Datum, l lsSpec) {
 			ts := time.Unix(l.T/1e9, l.T%1e9)
 			switch ms.Type {
 			case "int":
@@ -141,6 +157,34 @@ func build(sp storeSpec) (*metrics.Store, []builtMetric) {
 					datum.Observe(d, unhx(o), ts)
 				}
 			}
+		}
+		if ms.Reload {
+			m1 := newMetric(true)
+			if err := st.Add(m1); err != nil {
+				panic(err)
+			}
+			d, err := m1.GetDatum()
+			if err != nil {
+				panic(err)
+			}
+			l := ms.Ls[0]
+			set(d, l)
+			m2 := newMetric(true)
+			if err := st.Add(m2); err != nil { // the reload: m1's datum moves to m2
+				panic(err)
+			}
+			out = append(out, builtMetric{spec: ms, m: m2, ls: []builtLS{{l, []string{}, d}}})
+			continue
+		}
+		m := newMetric(false)
+		bm := builtMetric{spec: ms, m: m}
+		for _, l := range ms.Ls {
+			vals := vlib.UnQs(l.Vals)
+			d, err := m.GetDatum(vals...)
+			if err != nil {
+				panic(err)
+			}
+			set(d, l)
 			if l.Expiry != 0 {
 				if err := m.ExpireDatum(time.Duration(l.Expiry), vals...); err != nil {
 					panic(err)
@@ -441,6 +485,7 @@ func check(sp storeSpec, built []builtMetric, o outputs) []viol {
 		return
 	}
 	total := map[string]int{}
+	anyDot, anyDash := false, false // label values outside the property's domain somewhere in the store (a.b / a_b share a path)
 	for _, bm := range built {
 		m := bm.m
 		isText := bm.spec.Kind == "text"
@@ -457,6 +502,7 @@ func check(sp storeSpec, built []builtMetric, o outputs) []viol {
 				hasDash = hasDash || strings.Contains(v, "-")
 			}
 		}
+		anyDot, anyDash = anyDot || hasDot, anyDash || hasDash
 		for _, l := range bm.ls {
 			where := fmt.Sprintf("metric %q prog %q labels %q", m.Name, m.Program, l.vals)
 			val, ts := l.datum.ValueString(), timeString(l.datum)
@@ -547,6 +593,32 @@ func check(sp storeSpec, built []builtMetric, o outputs) []viol {
 			}
 			total["statsd"]++
 			total["collectd"]++
+		}
+	}
+	// no two records of one output may be addressed to the same series (a label
+	// set exported twice, e.g. after a reload that duplicated it in the store)
+	ident := func(r string, cut string) string {
+		if i := strings.Index(r, cut); i >= 0 {
+			return r[:i]
+		}
+		return r
+	}
+	for name, x := range map[string]struct {
+		recs []string
+		cut  string
+	}{"varz": {o.Varz, "} "}, "statsd": {o.Statsd, ":"}, "collectd": {o.Collectd, "\" interval="},
+		"graphite-http": {o.GraphiteHTTP, " "}, "graphite-push": {o.GraphitePush, " "}} {
+		if (anyDot && name != "varz" && name != "collectd") || (anyDash && name == "collectd") {
+			continue
+		}
+		seen := map[string]string{}
+		for _, r := range x.recs {
+			id := ident(r, x.cut)
+			if prev, ok := seen[id]; ok {
+				add("duplicate-records-for-one-label-set", fmt.Sprintf("%s: two records for %q: %q and %q", name, id, prev, r))
+				break
+			}
+			seen[id] = r
 		}
 	}
 	for name, recs := range map[string][]string{"graphite-http": o.GraphiteHTTP, "graphite-push": o.GraphitePush, "varz": o.Varz, "statsd": o.Statsd, "collectd": o.Collectd} {
@@ -646,26 +718,37 @@ func check(sp storeSpec, built []builtMetric, o outputs) []viol {
 
 // ---------------------------------------------------------------- generator
 
-var namePool = []string{"foo", "bar_baz", "lines-total", "x", "m1", "resp_time", "UPPER", "q9"}
+var namePool = []string{"foo", "bar_baz", "lines-total", "x", "m1", "resp_time", "UPPER", "q9", "cpu%", "m%s", "pct%%", "n%d"}
 var keyPool = []string{"a", "b", "code", "host", "k_1", "zone"}
-var valPool = []string{"x", "200", "500", "ok1", "ok2", "web01", "GET", "a_b", "Z", "7", "eu", "us"}
+var valPool = []string{"x", "200", "500", "ok1", "ok2", "web01", "GET", "a_b", "Z", "7", "eu", "us", "/a%20b", "100%", "%d", "%s", "%%", "%v%v", "x%", "%!", "50%25"}
 var sepVals = []string{"a.b", "a-b", "v=1", "c,d", "1.5", "x-y.z"} // separator characters of some format
-var progPool = []string{"p.mtail", "q.mtail", "dir-x.mtail", "r"}
-var hostPool = []string{"h", "web-01.example.org", "localhost", "10.0.0.1"}
-var prefixPool = []string{"", "", "mtail.", "pre-", "a.b."}
+var progPool = []string{"p.mtail", "q.mtail", "dir-x.mtail", "r", "p%d.mtail"}
+var hostPool = []string{"h", "web-01.example.org", "localhost", "10.0.0.1", "h%s", "web%20", "100%"}
+var prefixPool = []string{"", "", "mtail.", "pre-", "a.b.", "p%d.", "%", "x%s"}
 var finitePool = []float64{0, 1, -1, 0.5, -2.75, 1e300, -1e300, 9007199254740993, 5e-324, 3.141592653589793, 1e-7, 123456789.125, 1e21, 1e20, 0.000001, 100000, 1e6, 2.5e-5}
 var nonfinitePool = []float64{math.Inf(1), math.Inf(-1), math.NaN()}
 var intPool = []int64{0, 1, -1, 42, -7, 9007199254740993, math.MaxInt64, math.MinInt64, 1 << 53}
 
+// pick draws from a pool; half of the stores are kept free of '%'
+func pick(r *vlib.Rand, pct bool, pool []string) string {
+	for {
+		x := vlib.Pick(r, pool)
+		if pct || !strings.Contains(x, "%") {
+			return x
+		}
+	}
+}
+
 func genStore(r *vlib.Rand, nonfinite, seps bool) storeSpec {
 	q := vlib.Q
-	sp := storeSpec{Kind: "store", Host: q(vlib.Pick(r, hostPool)), Omit: r.Chance(30), Interval: int64(vlib.Pick(r, []int{0, 1, 60, 300})),
-		GPrefix: q(vlib.Pick(r, prefixPool)), SPrefix: q(vlib.Pick(r, prefixPool)), CPrefix: q(vlib.Pick(r, prefixPool))}
+	pct := r.Chance(55)
+	sp := storeSpec{Kind: "store", Host: q(pick(r, pct, hostPool)), Omit: r.Chance(30), Interval: int64(vlib.Pick(r, []int{0, 1, 60, 300})),
+		GPrefix: q(pick(r, pct, prefixPool)), SPrefix: q(pick(r, pct, prefixPool)), CPrefix: q(pick(r, pct, prefixPool))}
 	nm := 1 + r.Intn(5)
 	used := map[string]bool{}
 	distinct := int64(0)
 	for len(sp.Metrics) < nm {
-		name, prog := vlib.Pick(r, namePool), vlib.Pick(r, progPool)
+		name, prog := pick(r, pct, namePool), pick(r, pct, progPool)
 		if used[name] {
 			continue
 		}
@@ -712,7 +795,7 @@ func genStore(r *vlib.Rand, nonfinite, seps bool) storeSpec {
 		for tries := 0; len(ms.Ls) < nls && tries < 50; tries++ {
 			vals := make([]string, nk)
 			for i := range vals {
-				vals[i] = vlib.Pick(r, valPool)
+				vals[i] = pick(r, pct, valPool)
 				if seps && r.Chance(25) {
 					vals[i] = vlib.Pick(r, sepVals)
 				}
@@ -746,7 +829,10 @@ func genStore(r *vlib.Rand, nonfinite, seps bool) storeSpec {
 				}
 				l.F = hx(f)
 			case "string":
-				l.S = q(vlib.Pick(r, []string{"", "hello", "v1.2.3", "a b", "x\"y"}) + strconv.FormatInt(distinct, 10))
+				l.S = q(pick(r, pct, []string{"", "hello", "v1.2.3", "a b", "x\"y", "50%", "%v", "%d items", "100%"}) + strconv.FormatInt(distinct, 10))
+				if pct && r.Chance(25) {
+					l.S = q(strconv.FormatInt(distinct, 10) + "%") // a trailing percent sign
+				}
 			case "buckets":
 				for i, n := 0, 1+r.Intn(6)+int(distinct%3); i < n; i++ {
 					v := unhx(vlib.Pick(r, ms.Bounds)) + float64(r.Intn(5)-2)*0.125
@@ -757,6 +843,11 @@ func genStore(r *vlib.Rand, nonfinite, seps bool) storeSpec {
 				}
 			}
 			ms.Ls = append(ms.Ls, l)
+		}
+		// a key-less counter or histogram as a reloaded program leaves it
+		if nk == 0 && (kind == "counter" || kind == "histogram") && len(ms.Ls) == 1 && r.Chance(60) {
+			ms.Reload = true
+			ms.Ls[0].Expiry = 0
 		}
 		sp.Metrics = append(sp.Metrics, ms)
 	}
@@ -795,6 +886,21 @@ func runStore(out *vlib.Out, sp storeSpec, stream string) {
 	out.Add(vlib.App("CFmt", vlib.N(id), coqCfg(sp), coqStore(built), coqRecords(o.Varz), coqRecords(o.GraphiteHTTP),
 		coqRecords(o.GraphitePush), coqRecords(o.Statsd), coqRecords(o.Collectd), js), sp, multi && len(kinds) >= 2)
 	out.Count(fmt.Sprintf("%s/json=%d/hist=%v/text=%v", stream, o.JSONCode, kinds["histogram"], kinds["text"]))
+	pct, reload := false, false
+	for _, ms := range sp.Metrics {
+		reload = reload || ms.Reload
+		pct = pct || strings.Contains(ms.Name+ms.Prog, "%")
+		for _, l := range ms.Ls {
+			pct = pct || strings.Contains(strings.Join(l.Vals, "")+l.S, "%")
+		}
+	}
+	pct = pct || strings.Contains(sp.Host+sp.GPrefix+sp.SPrefix+sp.CPrefix, "%")
+	if pct {
+		out.Count("stores-with-percent-sign")
+	}
+	if reload {
+		out.Count("stores-with-reloaded-scalar-metric")
+	}
 }
 
 func corpus() []storeSpec {
@@ -845,7 +951,7 @@ func main() {
 			runStore(out, genStore(r, false, false), "main")
 		}
 	}
-	out.Flush("stores of 1-5 metrics of every kind/type with 0-3 keys and 2-4 label sets carrying pairwise distinct values, random hostnames, prefixes, push intervals, prog label on/off; a quarter of the stores contain non-finite floats, a quarter label values containing separator characters; every store is exported in all six ways; non-trivial when some metric has >= 2 label sets and >= 2 kinds are present", false)
+	out.Flush("stores of 1-5 metrics of every kind/type with 0-3 keys and 2-4 label sets carrying pairwise distinct values, random hostnames, prefixes, push intervals, prog label on/off, '%' and printf verbs in names, label values, hostnames, prefixes and text values; key-less counters and histograms built through the reload path (preallocated datum, Add, update, Add of the same declaration again); a quarter of the stores contain non-finite floats, a quarter label values containing separator characters; every store is exported in all six ways; non-trivial when some metric has >= 2 label sets and >= 2 kinds are present", false)
 }
 
 func replay(path string) {
